@@ -229,6 +229,65 @@ def _():
     finally:
         shutil.rmtree(d, ignore_errors=True)
 
+@w("D43")
+def _():
+    # a PEP 508 name may end like a file name: it is still a registry requirement
+    from poetry.core.packages.dependency import Dependency
+    ok = True
+    for n in ["foo.zip", "pkg.tar.gz", "a.whl", "x.tar", "foo-1.0-py3-none-any.whl"]:
+        for c in [">=1.0", "*"]:
+            d = Dependency(n, c)
+            e = Dependency.create_from_pep_508(d.to_pep_508())
+            ok = ok and type(e) is Dependency and e.name == d.name and str(e.constraint) == str(d.constraint)
+    return ok
+
+@w("D44")
+def _():
+    from poetry.core.constraints.version import parse_constraint, Version
+    ok = True
+    for s, inside, outside in [("==1.1b0.dev0.*", "1.1b0.dev0", "1.1b0.dev1"), ("==2.0.post1.dev0.*", "2.0.post1.dev0", "2.0.post1"), ("==2.0a1.dev3.*", "2.0a1.dev3", "2.0a1")]:
+        c = parse_constraint(s)
+        ok = ok and c.allows(Version.parse(inside)) and not c.allows(Version.parse(outside))
+        parse_constraint(s + ",<9")          # AssertionError before the repair
+        str(parse_constraint("!=" + s[2:]))
+    # pinned behaviour is unchanged
+    ok = ok and str(parse_constraint("2.0dev0.*")) == ">=2.0.dev0,<2.0.dev1" and str(parse_constraint("==2.0a1.*")) == ">=2.0a1.dev0,<2.0a2.dev0"
+    return ok
+
+@w("D45")
+def _():
+    from poetry.core.version.markers import parse_marker
+    ok = True
+    envs = [{"platform_release": r} for r in ["5.10.0-arch1-1", "5.10", "6.1.0", "4.19.0-arm", "10", "5.4.0-aws"]]
+    def ref(text, env):
+        import packaging.markers
+    for text, truth in [('platform_release >= "5.10" and "arm" in platform_release', lambda r: None),
+                        ('platform_release >= "5.10" or "arm" in platform_release', None),
+                        ('platform_release != "5.10" and "arm" not in platform_release', None),
+                        ('platform_release not in "5.10 5.4" and \'arch\' not in platform_release', None),
+                        ('"5.1" in platform_release or platform_release == "6.1.0" and \'arm\' not in platform_release', None)]:
+        m = parse_marker(text)
+        # each clause keeps its own meaning: the whole equals the and/or of the clauses parsed alone
+        import re
+        parts = re.split(r" (and|or) ", text)
+        vals = lambda env: [parse_marker(p).validate(env) if p not in ("and", "or") else p for p in parts]
+        for env in envs:
+            v = vals(env)
+            # 'and' binds tighter than 'or'
+            groups, cur = [], True
+            acc = []
+            i = 0
+            term = v[0]
+            res_or = []
+            cur = v[0]
+            for j in range(1, len(v), 2):
+                if v[j] == "and": cur = cur and v[j + 1]
+                else: res_or.append(cur); cur = v[j + 1]
+            res_or.append(cur)
+            ok = ok and (m.validate(env) == any(res_or))
+        str(m); parse_marker(str(m))
+    return ok
+
 if __name__ == "__main__":
     ids = sys.argv[1:] or list(W)
     bad = 0
